@@ -124,6 +124,12 @@ def uncommit(
                 parents.extend(reversed(pending_merges))
                 tree.set_parent_ids(parents)
             if branch.supports_tags() and not keep_tags:
+                if master is not None:
+                    # Deleting a tag also deletes it in the master branch,
+                    # which opens and write-locks the master itself: our own
+                    # lock on it would make that fail with LockContention.
+                    unlockable.remove(master)
+                    master.unlock()
                 remove_tags(branch, graph, old_tip, parents)
     finally:
         for item in reversed(unlockable):
